@@ -3055,6 +3055,14 @@ impl Compiler {
                 return Ok(());
             }
 
+            // Handle star re-export: export * from "./bar"
+            if export.star {
+                self.builder.emit(Op::ExportAll {
+                    module_specifier: source_idx,
+                });
+                return Ok(());
+            }
+
             // Handle named re-exports: export { foo, bar as baz } from "./bar"
             for spec in &export.specifiers {
                 let export_name_idx = self.builder.add_string(spec.exported.name.cheap_clone())?;
